@@ -160,6 +160,31 @@ def classify(item, notes, fmt):
     return "content/%s.%s" % (item.get("kind", "?"), f)
 
 
+def content_diffs(exp, alts, loaded, rec=None):
+    """Differences between the expected 1.1 model and a loaded document, don't-care zones removed."""
+    out = []
+    got = strip_model(model.model_of(loaded))
+    expm = strip_model(exp)
+    # ids: valid ones kept, others replaced by canonical ones
+    for (pe, ne), (pg, ng) in zip(model.walk(expm), model.walk(got)):
+        if ne.get("id") is None and hist.canonical_id(ng.get("id")):
+            ne["id"] = ng["id"]
+    for item in model.diff(expm, got):
+        pkey = (item["path"].rsplit("/", 1)[0] + ":" + item["path"].rsplit("/", 1)[1]) if "/" in item["path"] else item["path"]
+        alt = alts.get((pkey, item["field"])) if item.get("kind") == "prop" else None
+        if alt is not None and (item["obs"] in [str(a).strip() for a in alt] or item["obs"] in alt):
+            if rec is not None:
+                rec.count("dont-care", "lifted-attribute-one-of-candidates")
+            continue
+        if item["field"] == "values" and alt is None and item.get("kind") == "prop":
+            if alts.get((pkey, "dtype")) is not None:
+                if rec is not None:
+                    rec.count("dont-care", "values-under-conflicting-dtypes")
+                continue
+        out.append(item)
+    return out
+
+
 def run_case(case, ctx, sdir):
     from odml.tools.converters import VersionConverter
     from odml.tools.xmlparser import XMLReader
@@ -226,24 +251,7 @@ def run_case(case, ctx, sdir):
             return
         # ---- content
         rec.monitor("content")
-        got = strip_model(model.model_of(loaded))
-        expm = strip_model(exp)
-        # ids: valid ones kept, others replaced by canonical ones
-        for (pe, ne), (pg, ng) in zip(model.walk(expm), model.walk(got)):
-            if ne.get("id") is None and hist.canonical_id(ng.get("id")):
-                ne["id"] = ng["id"]
-        for item in model.diff(expm, got):
-            key_alt = (item["path"], item["field"])
-            alt = alts.get((item["path"].rsplit("/", 1)[0] + ":" + item["path"].rsplit("/", 1)[1], item["field"])) \
-                if item.get("kind") == "prop" else None
-            if alt is not None and (item["obs"] in [str(a).strip() for a in alt] or item["obs"] in alt):
-                rec.count("dont-care", "lifted-attribute-one-of-candidates")
-                continue
-            if item["field"] == "values" and alt is None and item.get("kind") == "prop":
-                dt_alt = alts.get((item["path"].rsplit("/", 1)[0] + ":" + item["path"].rsplit("/", 1)[1], "dtype"))
-                if dt_alt is not None:
-                    rec.count("dont-care", "values-under-conflicting-dtypes")
-                    continue
+        for item in content_diffs(exp, alts, loaded, rec):
             rec.violation(classify(item, notes, fmt), "%s: %s.%s expected %r got %r" % (
                 fmt, item["path"], item["field"], item["exp"], item["obs"]), case)
         # ---- dropped items logged
